@@ -136,8 +136,19 @@ def rule_thin_ctor(ctx, rep):
 
 def run(ctx, rep):
     # the thin handle stays an owner of its block on every path, unwinding out of lent callbacks included
-    balance.rule_bal(ctx, rep)
-    balance.rule_unw(ctx, rep)
+    def scope(F):
+        def thin(b):
+            tys = list(b.get("inputs", [])) + ([b["output"]] if "output" in b else [])
+            st = (b.get("impl") or {}).get("self_ty")
+            if st is not None:
+                tys.append(st)
+            prot = next((p for p, a in F.adts.items() if a["name"] == "HeaderSliceWithLengthProtected"), "-")
+            return any(F.handle_name(F.strip_refs(t)) == "ThinArc" or F.mentions_adt(t, prot) or F.mentions_adt(t, F.handle_paths.get("ThinArc", "-")) for t in tys)
+
+        return balance.scope_closure(F, [b for b in F.body_list if b["kind"] in ("Fn", "AssocFn") and thin(b)])
+
+    balance.rule_bal(ctx, rep, scope=scope)  # (of the thin handle's operations and conversions, and of what they are built from)
+    balance.rule_unw(ctx, rep, scope=scope)
     for tag, F, E in ctx.each():
         A = balance.analysis(tag, F, E)
         PROT = prot_path(F)
